@@ -52,7 +52,7 @@ type WithZipWriter struct {
 }
 
 // Call the function with the arguments provided.
-func (f *WithZipWriter) Call(s *slip.Scope, args slip.List, depth int) slip.Object {
+func (f *WithZipWriter) Call(s *slip.Scope, args slip.List, depth int) (result slip.Object) {
 	slip.CheckArgCount(s, depth, f, args, 1, -1)
 	forms := args[1:]
 	if list, ok := args[0].(slip.List); ok {
@@ -98,10 +98,14 @@ func (f *WithZipWriter) Call(s *slip.Scope, args slip.List, depth int) slip.Obje
 	s2 := s.NewScope()
 	s2.Let(sym, &slip.OutputStream{Writer: z})
 	for i := range forms {
-		_ = slip.EvalArg(s2, forms, i, d2)
+		if exit, ok := slip.EvalArg(s2, forms, i, d2).(slip.NonLocalExit); ok {
+			// return-from, return or go: control is leaving the body.
+			result = exit
+			break
+		}
 	}
 	_ = z.Flush()
 	_ = z.Close()
 
-	return nil
+	return
 }
